@@ -237,6 +237,25 @@ func (a *archetype) FreeTable(table *table) {
 	}
 }
 
+// removeTableRelations removes the given table from the lookups for its own relation targets.
+//
+// Required when a table is freed although its relation targets are still alive,
+// as [archetype.FreeTable] leaves these lookups untouched for archetypes with a single relation.
+func (a *archetype) removeTableRelations(table *table) {
+	for i := range table.columns {
+		column := &table.columns[i]
+		if !column.isRelation {
+			continue
+		}
+		if tables, ok := a.relationTables[i][column.target.id]; ok {
+			_ = tables.Remove(table.id)
+		}
+		if tables, ok := a.targetTables[column.target.id]; ok {
+			_ = tables.Remove(table.id)
+		}
+	}
+}
+
 // FreeAllTables frees all tables of the archetype.
 //
 // Does not clear the tables' contents.
